@@ -5,8 +5,9 @@ Line protocol for C03 (stateful: a case is declared line by line, then run).
 
 ```
 new arrays=<A> epochs=<E> fuel=<F> flat=<0|1>
-top kind=leaf|parent real=<0|1> start=n<k>|k<name> stop=-|n<k>|k<name> iter=<0|1> min=<n> max=<n> cond=<0|1> pre=<0|1> post=<0|1> nnps=<0|1>
+top kind=leaf|parent real=<0|1> start=n<k>|k<name> stop=-|n<k>|k<name> iter=<0|1> min=<n> max=<n> cond=<0|1> pre=<0|1> post=<0|1> nnps=<0|1> name=-|<label>
 sub <same attributes>                 -- appended to the last `top kind=parent`
+      (`name=-`: no `name=` given; labels need not be unique — the model never reads them)
 eq id=<n> dest=<a> src=_|a,b hooks=_|pi,in,ip,la,lp,pl,rd   -- appended to the last leaf / sub
 cond g=<gi>|<gi>.<k> v=<0|1 list> rest=<0|1>   -- outcome of the n-th call of that group's condition
 conv e=<id> v=<0|1 list> rest=<0|1>            -- outcome of the n-th call of that equation's converged
@@ -67,8 +68,10 @@ def parseAttrs (kv : List (String × String)) : Option Attrs := do
   let pre ← lookup kv "pre" >>= parseBool?
   let post ← lookup kv "post" >>= parseBool?
   let nn ← lookup kv "nnps" >>= parseBool?
+  let nameS ← lookup kv "name"
+  let name ← if nameS = "-" then some none else if nameS.isEmpty then none else some (some nameS)
   pure { real := real, start := start, stop := stop, iterate := iter, maxIter := mx, minIter := mn,
-         hasCond := c, hasPre := pre, hasPost := post, updateNnps := nn }
+         hasCond := c, hasPre := pre, hasPost := post, updateNnps := nn, name := name }
 
 def parseGId? (s : String) : Option GId :=
   match s.splitOn "." with
